@@ -570,7 +570,9 @@ def run_case(case):
 
   # ---- pipeline calls: one real step with interception (constraint-free: solver is a copy)
   with Hooks() as hk:
-    d2 = mw.make_data(mjm, m, states, njmax=16, nconmax=1)
+    # no constraint rows exist unless the model has a joint equality: with njmax=0 solve() is the documented copy
+    # qacc = qacc_smooth and the Newton kernels (compiled per nv) are never built, which keeps a cold-cache run inside the budget
+    d2 = mw.make_data(mjm, m, states, njmax=16 if mjm.neq else 0, nconmax=1)
     if case.get("split"):
       # step1 factors M with factor_m, step2 only back-substitutes (solve_m) on the stored factor
       mjw.step1(m, d2)
@@ -627,7 +629,12 @@ def run_case(case):
           rec.cover(f"order:{other}_between_sparse_trees", 1)
     if len(pos["sparse"]) > 1:
       rec.cover("several_sparse_trees_in_one_model", 1)
-    if pos["compact"] and pos["scalar"] and (pos["tile"] or pos["tile_branched"]):
+    dense = pos["tile"] + pos["tile_branched"]  # both go through the tiled dense Cholesky kernels
+    if dense and min(dense) < min(pos["sparse"]):
+      rec.cover("order:dense_before_sparse", 1)
+    if dense and max(dense) > max(pos["sparse"]):
+      rec.cover("order:dense_after_sparse", 1)
+    if pos["compact"] and pos["scalar"] and dense:
       rec.cover("all_layouts_in_one_model", 1)
   csz = {n for c, n in lay if c == "compact"}
   if csz & {n for c, n in lay if c == "scalar"}:
@@ -670,10 +677,11 @@ def requirements(agg, tier):
       unmet.append(f"never observed: {k}")
   # the mixed-layout family: every layout next to a sparse tree, on both sides of it, and its blocks judged on their own
   need = 3 if tier == "quick" else 10
-  for other in ("compact", "scalar", "tile", "tile_branched"):
-    for k in (f"sparse+{other}_in_one_model", f"order:{other}_before_sparse", f"order:{other}_after_sparse"):
-      if cov.get(k, 0) < need:
-        unmet.append(f"mixed-layout family observed fewer than {need} times: {k}")
+  keys = [f"sparse+{other}_in_one_model" for other in ("compact", "scalar", "tile", "tile_branched")]
+  keys += [f"order:{other}_{side}_sparse" for other in ("compact", "scalar", "dense") for side in ("before", "after")]
+  for k in keys:
+    if cov.get(k, 0) < need:
+      unmet.append(f"mixed-layout family observed fewer than {need} times: {k}")
   for k in ("all_layouts_in_one_model", "several_sparse_trees_in_one_model", "order:compact_between_sparse_trees", "same_size_compact_and_scalar_blocks_in_one_model", "several_blocks_in_one_tile_set"):
     if not cov.get(k):
       unmet.append(f"never observed: {k}")
